@@ -681,9 +681,39 @@ func (c06) Gen(rng *rand.Rand, tier string, idx int) Case {
 		isBool := false
 		tvl := idx%6 == 4
 		flip := idx%12 == 3
+		chain := idx%12 == 9
 		for tries := 0; ; tries++ {
 			if tvl {
 				e, isBool = g.tvl()
+				break
+			}
+			if chain {
+				// a flat chain `col OP lit AND col OP lit OR …` without a parenthesis, AND and OR mixed: SQL precedence
+				// groups the ANDs first, whichever shortcut or engine answers
+				ops := []string{"eq", "ne", "lt", "le", "gt", "ge"}
+				atom := func() *c06xn {
+					if g.rng.Intn(5) == 0 {
+						return &c06xn{k: "cmp", op: ops[g.rng.Intn(2)], kids: []*c06xn{{k: "col", s: []string{"s", "t"}[g.rng.Intn(2)]}, {k: "str", s: c06textLits[g.rng.Intn(len(c06textLits))]}}}
+					}
+					return &c06xn{k: "cmp", op: ops[g.rng.Intn(6)], kids: []*c06xn{{k: "col", s: []string{"a", "b"}[g.rng.Intn(2)]}, {k: "lit", whole: g.rng.Intn(8)}}}
+				}
+				groups := 2 + g.rng.Intn(2)
+				long := g.rng.Intn(groups)
+				for gi := 0; gi < groups; gi++ {
+					grp := atom()
+					for k := g.rng.Intn(2); k > 0 || (gi == long && grp.k == "cmp"); k-- {
+						grp = &c06xn{k: "and", kids: []*c06xn{grp, atom()}}
+					}
+					if e == nil {
+						e = grp
+					} else {
+						e = &c06xn{k: "or", kids: []*c06xn{e, grp}}
+					}
+				}
+				isBool = true
+				g.tag("flat-and-or-chain")
+				g.tag("and")
+				g.tag("or")
 				break
 			}
 			if flip {
@@ -735,6 +765,13 @@ func (c06) Gen(rng *rand.Rand, tier string, idx int) Case {
 		for i := 0; i < 10; i++ {
 			if tvl {
 				rows = append(rows, g.tvlRow())
+			} else if chain {
+				// mostly rows whose numeric columns are present and typed (the compiled shortcut answers those)
+				r := g.row()
+				if i < 8 {
+					r[1], r[2] = "i:"+strconv.Itoa(rng.Intn(9)), []string{"i:" + strconv.Itoa(rng.Intn(9)), c06fbits(float64(rng.Intn(32)) / 4)}[rng.Intn(2)]
+				}
+				rows = append(rows, r)
 			} else {
 				rows = append(rows, g.row())
 			}
